@@ -44,6 +44,16 @@ CHECKS = [
         "Trusted: vsim/vfs.cc cookie layer, glibc stdio, zlib inflate for the PNG check, the reference encoders/decoders in engines/sim_image.cc. "
         "Wide (>8 bit) foreign samples use host byte order like phosg's own writer. Hostile headers / bit flips are outside C06.",
         "DESIGN.md 4.1", "deterministic simulation with fault injection (simulated disk: torn writes, truncation, EIO, chunking, full disk; independent-decoder oracle)"),
+    chk("C16", "sim-par",
+        "Seeded search over thread interleavings: the unmodified Tools.hh templates are instantiated against scheduler-controlled std::atomic/std::thread/usleep/now "
+        "shims (macro retargeting in the harness TU), a seeded cooperative scheduler decides who runs at every atomic operation, thread start, join, sleep and callback "
+        "entry (strategies: run-to-completion, uniform, PCT, starvation, round-robin; progress timer may fire early), and the recorded callback history is checked for "
+        "exactly-once / at-most-once visits, range, thread numbers, returned value, joined threads, deadlock and termination. The same harness is built a second time "
+        "under ThreadSanitizer with fiber switches that carry no synchronisation, so accesses ordered only by the scheduler are reported as data races. Sampling of "
+        "sequentially consistent schedules, not proof.",
+        "Trusted: the shims and scheduler (engines/sim_par.cc, vsim/vpar.cc), TSan's fiber API. Sequential consistency only (no weak-memory reorderings). "
+        "One known finding is recorded instead of repaired: the cursor wraps when end_value is within num_threads*block_size of IntT's maximum.",
+        "DESIGN.md 4.4", "deterministic simulation (seeded cooperative scheduler over real template code; second build under ThreadSanitizer fibers for data races)"),
     chk("C20", "sim-rand",
         "SCOPED to the entropy clause of C20 (random_int in [lo,hi]; random_data fills exactly n bytes). The real Random.cc runs against a simulated "
         "/dev/urandom whose byte stream (adversarial constants or seeded), read sizes and EIO/EINTR are decided by the seed; every run is executed twice "
@@ -75,6 +85,7 @@ def main():
         },
         "engines": [
             {"name": "sim-image", "path": "engines/sim_image.cc", "serves_properties": ["C06"], "kind_free_text": "deterministic simulation: real Image.cc over a simulated disk (fopencookie), torn writes/truncation/EIO/full disk, independent decoders"},
+            {"name": "sim-par", "path": "engines/sim_par.cc", "serves_properties": ["C16"], "kind_free_text": "deterministic simulation: unmodified Tools.hh over scheduler-controlled atomic/thread shims (ucontext fibers), ASan+UBSan build and ThreadSanitizer-fiber build"},
             {"name": "sim-rand", "path": "engines/sim_rand.cc", "serves_properties": ["C20"], "kind_free_text": "deterministic simulation: real Random.cc over a simulated /dev/urandom (scoped clause only)"},
             {"name": "sim-fs", "path": "engines/sim_fs.cc", "serves_properties": ["C14"], "kind_free_text": "deterministic simulation: real Filesystem.cc over a simulated kernel (link-time --wrap + fopencookie), seeded fault injection"},
         ],
